@@ -2,7 +2,7 @@
    Both are proved about the definitions gotrans regenerates from builtins.go / objects.go (Gen/C16Builtins.v). *)
 From Coq Require Import String Lia Permutation Sorted.
 From PlzV Require Import Base.Harness Base.StrFacts Gen.C16Builtins.
-From PlzV Require Import Model.C16_Syntax Model.C16_Ops Model.C16_Prim Model.C16_Eval Model.C16_Sort.
+From PlzV Require Import Model.C16_Syntax Model.C16_Ops Model.C16_Prim Model.C16_Eval Model.C16_Sort Proof.C16_Int.
 Local Open Scope list_scope.
 
 (* ================================================================ insertionSortLessFunc, generically *)
@@ -344,4 +344,33 @@ Proof.
   apply (stable_sorted_unique rv); [|assumption|assumption|].
   - rewrite P, P0. reflexivity.
   - intros k. now rewrite F, F0.
+Qed.
+
+(* ================================================================ pyRange.Len (/repo 3ce4752) *)
+(* the model's length of a range IS the body gotrans regenerates from objects.go (going back to (Stop - Start) / Step
+   changes Gen.C16Builtins.pyrange_len and breaks this proof) *)
+Lemma range_len_is_source : forall a b c, range_len a b c = pyrange_len wrap64 a b c.
+Proof. reflexivity. Qed.
+
+Lemma range_up_length : forall n a c, length (range_up n a c) = n.
+Proof. induction n as [|n IH]; intros a c; cbn; [reflexivity|now rewrite IH]. Qed.
+
+(* ... and it is the number of items asp's iteration yields, for EVERY range whose span does not overflow 64 bits: the
+   capacity interpretList reserves for a comprehension is never negative (no makeslice panic) and never too small *)
+Theorem range_len_counts_items : forall a b c items,
+  range_items Asp a b c = Ok items -> in_int64 (b - a + c - 1) = true ->
+  range_len a b c = Z.of_nat (length items).
+Proof.
+  intros a b c items H Hi. unfold range_items in H. unfold range_len.
+  destruct (Z.gtb_spec c 0) as [Hc|Hc].
+  - destruct (Z.ltb_spec a b) as [Hab|Hab].
+    + destruct ((b - a + c - 1) / c >? range_bound)%Z; [discriminate|]. injection H as <-.
+      replace (b <=? a)%Z with false by (symmetry; apply Z.leb_gt; lia).
+      replace (c <=? 0)%Z with false by (symmetry; apply Z.leb_gt; lia). cbn [orb].
+      rewrite (wrap64_id _ Hi), range_up_length.
+      rewrite Z.quot_div_nonneg by lia. rewrite Z2Nat.id; [reflexivity|]. apply Z.div_pos; lia.
+    + injection H as <-. replace (b <=? a)%Z with true by (symmetry; apply Z.leb_le; lia). reflexivity.
+  - destruct (Z.eqb_spec c 0) as [Hz|Hz]; [discriminate|].
+    destruct (a <? b)%Z; [discriminate|]. injection H as <-.
+    replace (c <=? 0)%Z with true by (symmetry; apply Z.leb_le; lia). now rewrite Bool.orb_true_r.
 Qed.
